@@ -9,7 +9,7 @@ from gen_programs import Gen, Scope
 
 PID = "C02"
 MANIFEST = {
-    "text": "13 Coq theorems.  'No effect on values' at full strength over the evaluator model: STORE-EXTENSION INVARIANCE "
+    "text": "22 Coq theorems.  'No effect on values' at full strength over the evaluator model: STORE-EXTENSION INVARIANCE "
             "(a simulation over every expression form, FunctionDef::call and every depth: evaluating from a store related "
             "by an injective renaming of function-cell indices gives the renamed outcome, scope chain and a related store; "
             "generic in operators/built-ins that commute with renamings, discharged arm by arm for the transcribed "
@@ -20,15 +20,26 @@ MANIFEST = {
             "value up to the indices of the cells the evaluation itself allocated; exact shift form; `equals v1 v2 = "
             "equals v1 v1`), the only hypothesis being a scope chain without dangling cells.  LET-ABSTRACTION is proved for "
             "head contexts and cell-free values (PARTIAL; the statement for arbitrary contexts / several occurrences is "
-            "kept as the Prop C02_let_abstraction_full), and the renaming hypothesis for the FULL built-in dispatcher "
-            "(EvalFull.builtin_full: list/string/aggregate built-ins, sort_by/group_by/count_by) is kept as the Prop "
-            "C02_ops_commute_full (eval-twice for that dispatcher is proved relative to it) — for those the clause is "
-            "decided by search.  Older theorems: purity of the scope chain, existing bindings untouched, store only grows.  "
+            "kept as the Prop C02_let_abstraction_full).  REL round: the renaming hypothesis for the FULL built-in "
+            "dispatcher (EvalFull.builtin_full: aggregates, list/string/record built-ins incl. unique/includes — "
+            "Value::equals is blind to cell indices —, convert/round/random/to_number/to_string/join, "
+            "sort_by/group_by/count_by) is now PROVED (C02_ops_commute_full_proved; proofs/RelPure.v: one relation-generic "
+            "lemma per arm, proofs/C02OpsFull.v), so store-extension invariance, the eval-twice theorems (unconditional on "
+            "names) and the head-context let-abstraction are also theorems about the evaluator the EVAL streams run (the "
+            "*_full / *_fullbi theorems); and C02_pure_builtins_blind_to_cells: each of the 32 pure arms of builtin_full "
+            "maps argument vectors that are equal after erasing cell indices (incl. [f, f] vs [f, f'] — no renaming relates "
+            "those) to outcomes equal up to cell indices, i.e. no built-in compares functions by identity; the "
+            "classification of the arms these proofs rest on (which arms apply Value::equals / Value::compare, which call a "
+            "function value) is proved equal to a table regenerated on every run from the SOURCE TEXT of "
+            "BuiltInFunction::call (coq/gen/ArmObservers.v; C02_arm_observers_match_source, C02_other_arms_ignore_callback).  "
+            "Older theorems: purity of the scope chain, existing bindings untouched, store only grows.  "
             "PARTIAL by nature: determinism across processes, hash seeds and earlier evaluations is a property of the "
             "running code that no Gallina function can fail; it is decided by running the same generated programs in "
             "several processes and with a dirtied heap and comparing with the (deterministic) model; evaluate-twice and "
             "let-abstraction are ALSO searched on the implementation, incl. the boundary shapes of F52 (naming an existing "
-            "anonymous function from a do-block / callback), strict in the implementation-level law and against the model",
+            "anonymous function from a do-block / callback), strict in the implementation-level law and against the model, "
+            "and over the full built-in set with function values flowing through every list/record/aggregate built-in and "
+            "the sort_by/group_by/count_by callbacks (stream TWICE-FULL: law on the implementation + eval_full correspondence)",
     "note": "trusted: Coq kernel + vm_compute; evaluator transcription validated by the EVAL stream; the runtime "
             "behaviour the model cannot exhibit (HashMap iteration order, allocation order) is explored, not proved",
     "design_ref": "DESIGN.md section 6 C02; notes/C02.md",
@@ -384,7 +395,80 @@ def main(argv):
                                       "model_agree": nb_agree, "model_mismatch": nb_mism,
                                       "distribution": {"pre_shapes": len(PRES), "namers": len(NAMERS), "names": 2,
                                                        "expression_shapes": len(SHAPES)}}
+
+    # ---------------- (e) REL round: evaluate-twice over the FULL built-in dispatcher (Coq: C02_eval_twice_fullbi,
+    # C02_ops_commute_full_proved).  Assignment-free expressions that push function values (named, anonymous, fresh
+    # closures with captured values) through every list / record / aggregate / text built-in and through the
+    # callbacks of sort_by / group_by / count_by: `t1 = E; t2 = E` must give the same result (cells aside), and the
+    # model (EvalFull.eval_full, the evaluator the theorems are now about) must agree with the implementation.
+    TF_PRE = ("k9 = 3\nf9 = x => x + k9\ng9 = x => x * 2\nfs9 = [f9, g9, (z => z - k9)]\nns9 = [5, 3, 9, 1, 3]\n"
+              "ss9 = [\"pear\", \"fig\", \"apple\", \"fig\"]\nr9 = {a: f9, b: 2, c: (w => [w, k9])}\n"
+              "mx9 = [f9, 2, \"a\", null, [g9], {h: g9}, f9, 2]")
+    TF_EXPRS = [
+        "sort_by(ns9, x => 0 - x)", "sort_by(fs9, f => 0 - f(1))", "sort_by(mx9, v => typeof(v))", "sort_by(mx9, v => v)",
+        "group_by(mx9, v => typeof(v))", "count_by(mx9, v => typeof(v))", "group_by(fs9, f => to_string(f(2)))",
+        "count_by(map(ns9, n => (m => m + n)), f => to_string(f(0)))", "group_by(ss9, s => (c => c)(s))",
+        "unique(mx9)", "unique([f9, (x => x + k9), f9, (x => x + k9), (x => x + 1)])", "includes(mx9, f9)",
+        "includes(fs9, (z => z - k9))", "includes([(y => y)], (y => y))", "includes(mx9, (x => x + k9))", "sort(mx9)",
+        "reverse(mx9)", "concat(fs9, mx9, [(q => q)])", "flatten([fs9, [mx9], (q => q)])", "zip(fs9, ns9, mx9)",
+        "chunk(mx9, 3)", "head(fs9)", "tail(fs9)", "slice(mx9, 1, 6)", "len(mx9)", "keys(r9)", "values(r9)", "entries(r9)",
+        "values({...r9, d: (q => q)})", "map(values(r9), v => typeof(v))",
+        "[sum(map(fs9, f => f(1))), max(map(fs9, f => f(2))), median(map(fs9, f => f(3))), min(2, 1), prod(ns9)]",
+        "head(sort_by([(a => a + 1), (b => b * 3), g9], f => 0 - f(2)))(10)",
+        "map(unique([g9, (x => x * 2), g9]), f => f(4))", "join(map(fs9, f => to_string(f(1))), \"-\")",
+        "zip(map(ns9, n => (m => m + n)), ns9)[1][0](10)", "sort_by(map(ns9, n => (m => m + n)), f => f(0))[0](100)",
+        "filter(flatten([fs9, fs9]), f => includes(fs9, f))", "percentile(map(fs9, f => f(1)), 50)",
+        "dot(map(fs9, f => f(1)), map(fs9, f => f(2)))", "range(len(fs9))", "split(join(ss9, \",\"), \",\")",
+        "replace(head(ss9), \"p\", \"P\")", "round(avg(ns9), 1)", "convert(len(fs9), \"km\", \"m\")",
+        "to_number(to_string(len(mx9)))", "entries(group_by(fs9, f => to_string(arity(f))))[0][1][2](7)",
+        "sort_by(fs9, f => f)", "sort_by(ns9, f9)", "group_by(ss9, head)", "count_by(ss9, s => to_string(len(s)))",
+        "[typeof(head(tail(fs9))), arity(head(reverse(fs9)))]", "random(len(fs9))",
+    ]
+    TF_CTX = ["%s", "[%s, (u9 => u9)]", "(() => %s)()", "map([0], q9 => %s)[0]"]
+    tf_progs = []
+    for e9 in TF_EXPRS:
+        for cx in (TF_CTX if tier != "quick" else [TF_CTX[0], TF_CTX[1 + rng.below(3)]]):
+            e_ = cx % e9
+            tf_progs.append("%s\nt1 = %s\nt2 = %s" % (TF_PRE, e_, e_))
+    tf_out = es.rust_eval(h, tf_progs)
+    tf_n = TF_PRE.count("\n") + 3
+    tf_checked = tf_ok1 = tf_viol = 0
+    for p_, o_ in zip(tf_progs, tf_out):
+        if "PANIC" in o_ or o_.startswith("ABORT"):
+            res.violation("the evaluator panicked/aborted", {"kind": "impl", "program": p_, "observed": o_[:300]})
+            continue
+        parts = o_.split(";ENV:")[0].split("|")
+        if len(parts) != tf_n:
+            continue
+        tf_checked += 1
+        a_, b_ = strip_names(parts[-2]), strip_names(parts[-1])
+        if a_.startswith("OK"):
+            tf_ok1 += 1
+            if a_ != b_:
+                tf_viol += 1
+                if tf_viol <= 3:
+                    res.violation("evaluating the same expression again gave a different result (full built-in set)",
+                                  {"kind": "impl-law", "program": p_, "observed": [parts[-2], parts[-1]],
+                                   "expected": "the statements t1 and t2 give the same result (Coq: C02_eval_twice_fullbi)"})
+    tf_agree = tf_mism = tf_skip = 0
+    try:
+        coq3, _ = es.parse_to_coq(h, tf_progs)
+        model3 = es.model_eval(coq3, tag="c02tf")
+        tf_agree, mism3, tf_skip, _ = es.compare(tf_progs, tf_out, model3)
+        tf_mism = len(mism3)
+        if mism3:
+            i3, r3_, m3_ = mism3[0]
+            res.tie_broken("correspondence C02/TWICE-FULL: model and implementation disagree on %d programs" % len(mism3),
+                           "first: %r\nimpl : %s\nmodel: %s" % (tf_progs[i3], r3_, m3_))
+    except c.BrokenTie as e:
+        res.tie_broken(e.what, e.detail)
+    res.streams["TWICE-FULL"] = {"programs": len(tf_progs), "reached_t2": tf_checked, "t1_succeeded": tf_ok1,
+                                 "violations": tf_viol, "model_agree": tf_agree, "model_mismatch": tf_mism,
+                                 "model_skipped_unmodelled": tf_skip,
+                                 "distribution": {"expressions": len(TF_EXPRS), "contexts_per_expression": 2 if tier == "quick" else len(TF_CTX),
+                                                  "builtins_named": sorted({w for e9 in TF_EXPRS for w in re.findall(r"[a-z_]+(?=\()", e9)})}}
     res.coverage["evaluations"] = n_prog * (nproc + 1) + len(flat) + 2 * cli_n + len(nb_progs)
+    res.coverage["evaluations"] += len(tf_progs)
     res.coverage["distinct_nontrivial"] = len({r for r in runs[0] if "OK:" in r}) + let_checked
     res.coverage["rule"] = ("generated well-scoped programs (typed generator, scope tracking) each run in %d separate "
                             "processes + once more after unrelated evaluations in the same process + the model; %d "
